@@ -48,35 +48,60 @@ def ob_abort(cx):
 def ob_suspend_resume(cx):
     env = pc.build(cx, cx.p("npacks"), cx.p("maxcount"))
     coll, events = env.coll, env.events
-    first = _group(cx, env, "aaaa", "NEW")
-    tokens = coll._suspend_write_group()
-    cx.require(not [e for e in events if e[0] in ("names", "finish", "obsolete")],
-               "suspending a write group made something visible: %r" % (events,))
-    cx.require(tokens == (["aaaa"] if first.inserted else []), "suspend returned tokens %r" % (tokens,))
-    cx.require(coll._new_pack is None and pc.listed_content(env) == env.old_content, "suspended data is visible")
-    outcome = cx.pick("then", ["commit", "abort"])
+    suspended = {}
 
     def resume_pack(token):
-        p = pc.WritablePack(token, first.count, first.content, events, True)
+        src = suspended[token]
+        p = pc.WritablePack(token, src.count, src.content, events, True)
         env.by_name[token] = p
         coll.add_pack_to_memory(p)
         coll._resumed_packs.append(p)
         return p
     coll._resume_pack = resume_pack
+
+    def new_session():
+        """the next operation happens on a freshly opened repository: only the listed packs are in memory"""
+        for p in list(coll.packs):
+            if p.name not in coll._names:
+                coll.packs.remove(p)
+                coll._packs_by_name.pop(p.name)
+    # one or two rounds of: (resume what was suspended before,) write some more, suspend
+    tokens = []
+    want_suspended = []
+    rounds = cx.choose("suspend_rounds", 1, 2)
+    groups = []
+    for r in range(rounds):
+        if tokens:
+            coll._resume_write_group(tokens)
+        name = "aaaa" if r == 0 else "bbbb"
+        g = _group(cx, env, name, "NEW" + name)
+        groups.append(g)
+        tokens = coll._suspend_write_group()
+        if g.inserted:
+            suspended[name] = g
+            want_suspended.append(name)
+        cx.require(not [e for e in events if e[0] in ("names", "finish", "obsolete")],
+                   "suspending a write group made something visible: %r" % (events,))
+        cx.require(sorted(tokens) == sorted(want_suspended), "suspend returned tokens %r, suspended packs are %r" % (tokens, want_suspended))
+        cx.require(coll._new_pack is None and pc.listed_content(env) == env.old_content, "suspended data is visible")
+        new_session()
+    first = groups[0]
+    outcome = cx.pick("then", ["commit", "abort"])
     coll._resume_write_group(tokens)
     second = _group(cx, env, "new2", "NEW2")
     if outcome == "abort":
         coll._abort_write_group()
         cx.require(not [e for e in events if e[0] in ("names", "finish", "obsolete")], "aborting the resumed group made something visible")
         cx.require(pc.listed_content(env) == env.old_content, "visible revisions changed by an aborted (resumed) write group")
-        cx.require(not coll._resumed_packs and "aaaa" not in coll._names and "new2" not in coll._names,
+        cx.require(not coll._resumed_packs and not [n for n in ("aaaa", "bbbb", "new2") if n in coll._names],
                    "aborted packs stayed in the collection's name list")
         cx.cover("resumed_then_aborted")
     else:
         coll._commit_write_group()
         want = set(env.old_content)
-        if first.inserted:
-            want |= {"NEW"}
+        for g in groups:
+            if g.inserted:
+                want |= g.content
         if second.inserted:
             want |= {"NEW2"}
         # the same as committing everything directly; and never a state that shows only part of it
@@ -86,6 +111,8 @@ def ob_suspend_resume(cx):
         cx.cover("resumed_then_committed")
         if first.inserted and second.inserted:
             cx.cover("both_parts")
+        if len(want_suspended) == 2:
+            cx.cover("two_resumed_packs")
     cx.observe("events", [e[0] for e in events])
 
 
@@ -127,9 +154,10 @@ def obligations(tier):
     return [
         Ob("abort", ob_abort, [PR], p, to, 1, ["aborted"], bounds=b + "; one write group (with or without data) aborted"),
         Ob("suspend_resume", ob_suspend_resume, [PR], p, to, 2 if q else 1,
-           ["resumed_then_committed", "resumed_then_aborted", "both_parts"],
-           bounds=b + "; a write group suspended, resumed in a second write group (with or without further data) that is "
-                      "committed or aborted; crash after every prefix of the effects of the final commit"),
+           ["resumed_then_committed", "resumed_then_aborted", "both_parts", "two_resumed_packs"],
+           bounds=b + "; one or two rounds of (resume,) write, suspend - each continued on a freshly opened collection - then "
+                      "a last write group (with or without further data) that resumes everything and is committed or "
+                      "aborted; crash after every prefix of the effects of the final commit"),
         Ob("refused", ob_refused, [PR], p, to, 1, ["refused"], bounds=b + "; commit of a group with missing compression "
            "parents / missing inventories"),
     ]
